@@ -525,6 +525,8 @@ impl PaZipCompressor {
     /// Legacy compression using original implementation
     fn compress_sequential_legacy(&mut self, input: &[u8], output: &mut Vec<u8>) -> Result<()> {
         let mut pos = 0;
+        // the staging buffer must only hold this call's tokens (compress_parallel calls this once per block)
+        self.output_buffer.clear();
         
         while pos < input.len() {
             // Step 1: Find local match
